@@ -438,7 +438,8 @@ def run(ctx):
         r3.violation("session", "the session flag does not test the pending sign", common.fn_line(prog, prog.method_impl(fx, "ongoing_input_session")))
     bs = prog.method_impl(fx, "backspace_event")
     try:
-        bb_, paths = c06.analyse_paths(prog, bs, mods)
+        # (a back-space that asks the session flag first: the flag's false edge says every session field — the pending sign among them — is empty)
+        bb_, paths = c06.analyse_paths(prog, bs, mods, sess=tuple(roles[fx]["session_fields"]), flag_fn=prog.method_impl(fx, "ongoing_input_session"))
         n = 0
         for p in paths:
             pol = None
